@@ -266,7 +266,11 @@ func c20RecordCanon(rec string, wrapRoot bool) (string, error) {
 	return sb.String(), nil
 }
 
+// c20Only, when set by the replayer, restricts C20 to one (argument set, flags, expression) job.
+var c20Only *[3]int
+
 type c20Case struct {
+	Job    [3]int            `json:"job"`
 	Args   []string          `json:"args"`
 	Files  map[string]string `json:"files"`
 	Stdin  string            `json:"stdin,omitempty"`
@@ -371,6 +375,9 @@ func C20(c *run.Check) {
 			}
 		}
 	}
+	if c20Only != nil {
+		jobs = []job{{c20Only[0], c20Only[1], c20Only[2]}}
+	}
 	walkFiles := func(rel string, recursive bool) (files []string, dirDiag bool) {
 		p := filepath.Join(base, rel)
 		st, err := os.Stat(p)
@@ -414,7 +421,7 @@ func C20(c *run.Check) {
 		c.Evaluations.Add(1)
 		stdout, stderr := so.String(), se.String()
 		fail := func(msg string) {
-			c.Violation(c20Case{Args: append(f.args(), append([]string{"-x", expr}, as.args...)...), Files: c20Files, Stdin: as.stdin, Detail: msg, Stdout: stdout, Stderr: stderr},
+			c.Violation(c20Case{Job: [3]int{j.a, j.f, j.e}, Args: append(f.args(), append([]string{"-x", expr}, as.args...)...), Files: c20Files, Stdin: as.stdin, Detail: msg, Stdout: stdout, Stderr: stderr},
 				fmt.Sprintf("xsel %s: %s\nstdout: %q\nstderr: %q", strings.Join(append(f.args(), append([]string{"-x", expr}, as.args...)...), " "), msg, stdout, stderr))
 		}
 		if runErr != nil {
@@ -626,6 +633,16 @@ func init() {
 	replayers["C20"] = func(raw json.RawMessage) string {
 		var cs c20Case
 		json.Unmarshal(raw, &cs)
-		return "re-run ./check C20 quick (args: " + strings.Join(cs.Args, " ") + "): " + cs.Detail
+		fmt.Println("xsel", strings.Join(cs.Args, " "))
+		c20Only = &cs.Job
+		tmp, _ := os.MkdirTemp("", "xv-c20-replay-")
+		defer os.RemoveAll(tmp)
+		run.OutDir = tmp
+		c := run.New("C20", "thorough", "exploration")
+		C20(c)
+		if c.Violations() > 0 {
+			return cs.Detail
+		}
+		return ""
 	}
 }
